@@ -31,6 +31,7 @@ def _streams():
         "lib04": props.L04, "lib16": props.L16, "cli19": {"kind": "cli19", "profile": "loader"},
         "greedy_z3probe": props.G_Z3, "greedy_preemptprobe": props.G_PRE, "greedy_side": props.G_SIDE,
         "chaos_side": props.CH_SIDE, "plan_f0": props.PLAN_F0, "plan_ilp_goodput": props.PLAN_ILP_GOODPUT,
+        "greedy_dyn": props.G_DYN, "chaos_dyn": props.CH_DYN, "cplex_batch": props.CW_CPLEX_BATCH,
     }
 
 
